@@ -462,3 +462,31 @@ def check(facts, rep, tier, cfg):
     check_r3_r4(facts, rep, crate, inter)
     check_r5(facts, rep, crate, inter)
     check_r6(facts, rep, crate, inter)
+
+
+def top_roles(node):
+    """Outermost role of every alternative of an expression: 'Owner.field', 'const:v', 'call:name', 'param:x'."""
+    out = set()
+    st = [node]
+    seen = set()
+    while st:
+        x = strip(st.pop())
+        if id(x) in seen:
+            continue
+        seen.add(id(x))
+        k = x.kind
+        if k == "phi":
+            st.extend(x[1])
+        elif k == "field":
+            out.add("%s.%s" % ((x[3] or "?").split("::")[-1], x[2]))
+        elif k == "downcast":
+            out.add("as:%s" % x[2])
+        elif k == "const":
+            out.add("const:%s" % x[1])
+        elif k == "call":
+            out.add("call:%s" % x[6])
+        elif k == "param":
+            out.add("param:%s" % x[2])
+        else:
+            out.add(k)
+    return out
